@@ -33,13 +33,13 @@ theorem twiddleFma_spec (m : Nat) (hm : m % 8 = 0) (h0 : 0 < m) (a b om : Array 
   rw [e2] at this
   exact this
 
-theorem twiddleAvx512_spec (m : Nat) (hm : m % 16 = 0) (h0 : 0 < m) (a b om : Array R)
+theorem twiddleAvx512Old_spec (m : Nat) (hm : m % 16 = 0) (h0 : 0 < m) (a b om : Array R)
     (ha : 2 * m ≤ a.size) (hb : 2 * m ≤ b.size) :
-    Pointwise idxCplx m a (cplxFftvecTwiddleAvx512 (RArith.ofRing R) m a b om).1
+    Pointwise idxCplx m a (cplxFftvecTwiddleAvx512Old (RArith.ofRing R) m a b om).1
       (fun i => ev idxCplx a i + twMulAvx512 om (i % 2) (ev idxCplx b i)) ∧
-    Pointwise idxCplx m b (cplxFftvecTwiddleAvx512 (RArith.ofRing R) m a b om).2
+    Pointwise idxCplx m b (cplxFftvecTwiddleAvx512Old (RArith.ofRing R) m a b om).2
       (fun i => ev idxCplx a i - twMulAvx512 om (i % 2) (ev idxCplx b i)) := by
-  unfold cplxFftvecTwiddleAvx512
+  unfold cplxFftvecTwiddleAvx512Old
   rw [ymmCount_avx512 m hm h0]
   have := twiddleSimd_spec (m / 2) shuf9 a b om
     (fun e x w => match e with
@@ -71,7 +71,7 @@ theorem twiddleAvx512_spec (m : Nat) (hm : m % 16 = 0) (h0 : 0 < m) (a b om : Ar
 def bitwFmaCx (w A B C D : Cx R) : Cx R × Cx R × Cx R × Cx R :=
   bitwGen (fun x => x * w) (fun x => x * ⟨w.re, w.re⟩) (fun x => x * ⟨w.im, w.im⟩) A B C D
 
-/-- per-column function of the upper half of a zmm in `cplx_fftvec_bitwiddle_avx512` -/
+/-- per-column function of the upper half of a zmm in `cplx_fftvec_bitwiddle_avx512` before its repair (D9) -/
 def bitwHiCx (w A B C D : Cx R) : Cx R × Cx R × Cx R × Cx R :=
   bitwGen (hiT w.re) (hiT w.re) (hiT w.re) A B C D
 
@@ -105,20 +105,20 @@ theorem bitwiddleFma_spec (m slicea : Nat) (hm : m % 2 = 0) (h0 : 0 < m) (a om :
   rw [e2, e4] at L
   exact L
 
-theorem bitwiddleAvx512_spec (m slicea : Nat) (hm : m % 8 = 0) (h0 : 0 < m) (a om : Array R)
+theorem bitwiddleAvx512Old_spec (m slicea : Nat) (hm : m % 8 = 0) (h0 : 0 < m) (a om : Array R)
     (hoff : 2 * m ≤ 8 * (slicea / 64)) (hb : 3 * (8 * (slicea / 64)) + 2 * m ≤ a.size) :
-    (cplxFftvecBitwiddleAvx512 (RArith.ofRing R) m slicea a om).size = a.size ∧
+    (cplxFftvecBitwiddleAvx512Old (RArith.ofRing R) m slicea a om).size = a.size ∧
     (∀ i, i < m →
       let off := 8 * (slicea / 64)
       let Q := (if i / 2 % 2 = 0 then bitwFmaCx (omW om (i % 2)) else bitwHiCx (omW om (i % 2)))
         (cxAt a (2 * i)) (cxAt a (off + 2 * i)) (cxAt a (2 * off + 2 * i)) (cxAt a (3 * off + 2 * i))
-      cxAt (cplxFftvecBitwiddleAvx512 (RArith.ofRing R) m slicea a om) (2 * i) = Q.1 ∧
-      cxAt (cplxFftvecBitwiddleAvx512 (RArith.ofRing R) m slicea a om) (off + 2 * i) = Q.2.1 ∧
-      cxAt (cplxFftvecBitwiddleAvx512 (RArith.ofRing R) m slicea a om) (2 * off + 2 * i) = Q.2.2.1 ∧
-      cxAt (cplxFftvecBitwiddleAvx512 (RArith.ofRing R) m slicea a om) (3 * off + 2 * i) = Q.2.2.2) ∧
+      cxAt (cplxFftvecBitwiddleAvx512Old (RArith.ofRing R) m slicea a om) (2 * i) = Q.1 ∧
+      cxAt (cplxFftvecBitwiddleAvx512Old (RArith.ofRing R) m slicea a om) (off + 2 * i) = Q.2.1 ∧
+      cxAt (cplxFftvecBitwiddleAvx512Old (RArith.ofRing R) m slicea a om) (2 * off + 2 * i) = Q.2.2.1 ∧
+      cxAt (cplxFftvecBitwiddleAvx512Old (RArith.ofRing R) m slicea a om) (3 * off + 2 * i) = Q.2.2.2) ∧
     (∀ x, (∀ s, s < 4 → x < s * (8 * (slicea / 64)) ∨ s * (8 * (slicea / 64)) + 2 * m ≤ x) →
-      (cplxFftvecBitwiddleAvx512 (RArith.ofRing R) m slicea a om).getD x 0 = a.getD x 0) := by
-  unfold cplxFftvecBitwiddleAvx512
+      (cplxFftvecBitwiddleAvx512Old (RArith.ofRing R) m slicea a om).getD x 0 = a.getD x 0) := by
+  unfold cplxFftvecBitwiddleAvx512Old
   rw [ymmCount_bitw_avx512 m hm h0]
   simp only [ofRing_zero]
   have L := bitwLoop_spec (m / 2) (8 * (slicea / 64))
@@ -142,6 +142,21 @@ theorem bitwiddleAvx512_spec (m slicea : Nat) (hm : m % 8 = 0) (h0 : 0 < m) (a o
   have e4 : 4 * (m / 2) = 2 * m := by omega
   rw [e2, e4] at L
   exact L
+
+/-! ### the repaired AVX-512 kernels are the AVX2 kernels, for every arithmetic (binary64 bit patterns included) -/
+
+theorem twiddleAvx512_eq_fma {α : Type} (ar : RArith α) (m : Nat) (hm : m % 16 = 0) (h0 : 0 < m) (a b om : Array α) :
+    cplxFftvecTwiddleAvx512 ar m a b om = cplxFftvecTwiddleFma ar m a b om := by
+  unfold cplxFftvecTwiddleAvx512 cplxFftvecTwiddleFma
+  rw [ymmCount_avx512 m hm h0, ymmCount_fma m (by omega) h0]
+
+theorem bitwiddleAvx512_eq_fma {α : Type} (ar : RArith α) (m slicea : Nat) (hm : m % 8 = 0) (h0 : 0 < m)
+    (hs : slicea % 64 < 32) (a om : Array α) :
+    cplxFftvecBitwiddleAvx512 ar m slicea a om = cplxFftvecBitwiddleFma ar m slicea a om := by
+  unfold cplxFftvecBitwiddleAvx512 cplxFftvecBitwiddleFma
+  rw [ymmCount_bitw_avx512 m hm h0, ymmCount_bitw_fma m (by omega) h0]
+  have : 8 * (slicea / 64) = 4 * (slicea / 32) := by omega
+  rw [this]
 
 end Cover
 end Spq
